@@ -653,6 +653,8 @@ func Specs(thorough bool) []Spec {
 		{Name: "v6/S1d-retransmission-identical-datagram-twice", Proto: 6, Blocks: 2, Dgrams: [][]byte{Solicit6(a, x(1), true, false, ""), Solicit6(a, x(1), true, false, "")}},
 		{Name: "v6/S5c-two-relayed-solicits-through-different-relay-agents", Proto: 6, Blocks: 4, Dgrams: [][]byte{Relayed6(Solicit6(a, x(1), true, true, ""), "2001:db8:a::1", "fe80::a", "relay-a/port-1"), Relayed6(Solicit6(b, x(2), true, false, ""), "2001:db8:b::1", "fe80::b", "relay-b/port-22")}},
 		{Name: "v6/S1e-relayed-two-IA_PDs+direct-solicit", Proto: 6, Blocks: 8, Dgrams: [][]byte{Relayed6(Solicit6x(a, x(1), "2001:db8:0:10::/64", "2001:db8:0:11::/64"), "2001:db8:a::1", "fe80::a", "relay-a"), Solicit6(b, x(2), true, false, "")}},
+		{Name: "v6/S5d-two-short-datagrams-then-a-long-one", Proto: 6, Blocks: 4, Dgrams: [][]byte{Solicit6(a, x(1), false, true, ""), Solicit6(b, x(2), false, true, ""), Relayed6(Solicit6x(c, x(3), "2001:db8:0:12::/64", ""), "2001:db8:c::1", "fe80::c", "a-long-interface-identifier-of-a-relay-agent/port-333")}},
+		{Name: "v4/S5d-two-short-datagrams-then-a-long-one", Proto: 4, Blocks: 4, Dgrams: [][]byte{Discover4(a, 0x1601, nil), Discover4(b, 0x1602, nil), Request4(c, 0x1603, []byte{1, 3, 6, 15, 42, 51, 54, 119, 121, 43, 60, 66, 67})}},
 		{Name: "v6/S1-same-client-two-solicits", Proto: 6, Blocks: 2, Dgrams: [][]byte{Solicit6(a, x(1), true, false, ""), Solicit6(a, x(2), true, false, "")}},
 		{Name: "v6/S1b-same-client-two-IA_PDs-each", Proto: 6, Blocks: 8, Dgrams: [][]byte{Solicit6x(a, x(1), "2001:db8:0:15::/64", "2001:db8:0:16::/64"), Solicit6x(a, x(2), "2001:db8:0:11::/64", "")}},
 		{Name: "v6/S1c-same-client-two-hintless-IA_PDs+new-hint", Proto: 6, Blocks: 8, Dgrams: [][]byte{Solicit6x(a, x(1), "", ""), Solicit6(a, x(2), true, false, "2001:db8:0:13::/64")}},
